@@ -267,7 +267,11 @@ impl DrawExecutor {
     }*/
 
     fn set_pixel(&mut self, x: i32, y: i32, line_color: u8) {
-        let offset = (y * self.get_resolution().width + x) as usize;
+        let res = self.get_resolution();
+        if x < 0 || y < 0 || x >= res.width || y >= res.height {
+            return;
+        }
+        let offset = (y * res.width + x) as usize;
         if offset >= self.screen.len() {
             return;
         }
@@ -275,7 +279,14 @@ impl DrawExecutor {
     }
 
     fn get_pixel(&mut self, x: i32, y: i32) -> u8 {
-        let offset = (y * self.get_resolution().width + x) as usize;
+        let res = self.get_resolution();
+        if x < 0 || y < 0 || x >= res.width || y >= res.height {
+            return 0;
+        }
+        let offset = (y * res.width + x) as usize;
+        if offset >= self.screen.len() {
+            return 0;
+        }
         self.screen[offset]
     }
 
